@@ -1,10 +1,349 @@
-//! C29 — not built yet.
+//! C29 RRDP-to-rsync fallback follows the documented policy table.
+//!
+//! Exhaustive product policy{never,stale,new} x RRDP outcome{updated, failed with current copy,
+//! failed with expired copy, failed without copy} x rrdp{on,off} x rsync{on,off} x CA{with,without
+//! rpkiNotify}, each cell with generated host / module / path names. Outcomes are produced for
+//! real: a scripted HTTPS server failure; local copies come from an earlier successful update;
+//! expiry from `refresh = 1 s`, `rrdp-fallback-time = 1 s` and one shared wait.
+
+use std::time::{Duration, Instant};
+
+use bytes::Bytes;
+use routinator::collector::Collector;
+use routinator::config::FallbackPolicy;
+use rpki::uri;
+use serde::{Deserialize, Serialize};
 
 use crate::core::*;
+use crate::erun::scratch_base;
+use crate::httpsrv::*;
 
-pub const IMPLEMENTED: bool = false;
+pub const IMPLEMENTED: bool = true;
 
-pub fn run(_ctx: &Ctx, _rep: &mut Report, _replay: Option<&serde_json::Value>) {
-    eprintln!("C29: check not implemented");
-    std::process::exit(2);
+#[derive(Serialize, Deserialize, Clone, Copy, Debug, PartialEq, Eq)]
+pub enum Policy {
+    Never,
+    Stale,
+    New,
+}
+
+#[derive(Serialize, Deserialize, Clone, Copy, Debug, PartialEq, Eq)]
+pub enum RrdpOutcome {
+    Updated,
+    FailedCurrent,
+    FailedExpired,
+    FailedNoCopy,
+}
+
+#[derive(Serialize, Deserialize, Clone, Copy, Debug, PartialEq, Eq)]
+pub enum Transport {
+    Rrdp,
+    Rsync,
+    Nothing,
+}
+
+#[derive(Serialize, Deserialize, Clone, Debug, PartialEq, Eq)]
+pub struct Case {
+    pub policy: Policy,
+    pub outcome: RrdpOutcome,
+    pub rrdp_on: bool,
+    pub rsync_on: bool,
+    pub has_notify: bool,
+    /// generated names: host label of the RRDP server, host label of the rsync server, module, path prefix
+    pub rrdp_label: String,
+    pub rsync_label: String,
+    pub module: String,
+    pub base: String,
+    /// how the failing server fails (0: 500 on the notification, 1: 404, 2: connection drop, 3: notification fine but snapshot 404)
+    pub failure: u8,
+}
+
+/// The table of the property statement / manual page (`--rrdp-fallback`).
+pub fn expected(c: &Case) -> Transport {
+    let rsync = if c.rsync_on { Transport::Rsync } else { Transport::Nothing };
+    if !c.has_notify || !c.rrdp_on {
+        // "A CA without an RRDP URI is fetched with rsync"; "rsync is used … when RRDP is disabled"
+        return rsync;
+    }
+    match c.outcome {
+        RrdpOutcome::Updated => Transport::Rrdp,
+        RrdpOutcome::FailedCurrent => Transport::Nothing,
+        RrdpOutcome::FailedExpired => {
+            if c.policy == Policy::Stale {
+                rsync
+            } else {
+                Transport::Nothing
+            }
+        }
+        RrdpOutcome::FailedNoCopy => {
+            if matches!(c.policy, Policy::Stale | Policy::New) {
+                rsync
+            } else {
+                Transport::Nothing
+            }
+        }
+    }
+}
+
+struct Cell {
+    case: Case,
+    dir: tempfile::TempDir,
+    server: RrdpServer,
+    prepared_at: Option<Instant>,
+    prep_error: Option<String>,
+}
+
+fn rrdp_host(c: &Case) -> String {
+    format!("{}.rpki.test", c.rrdp_label)
+}
+fn rsync_host(c: &Case) -> String {
+    format!("{}.example.net", c.rsync_label)
+}
+fn ca_repo(c: &Case) -> uri::Rsync {
+    uri::Rsync::from_string(format!("rsync://{}/{}/ca/", rsync_host(c), c.module)).expect("rsync uri")
+}
+fn obj_uri(c: &Case) -> uri::Rsync {
+    ca_repo(c).join(b"obj.roa").unwrap()
+}
+
+fn config_for(c: &Case, dir: &std::path::Path, srv: &HttpsServer, prepare: bool) -> routinator::config::Config {
+    let mut config = client_config(dir, srv);
+    config.rrdp_fallback = match c.policy {
+        Policy::Never => FallbackPolicy::Never,
+        Policy::Stale => FallbackPolicy::Stale,
+        Policy::New => FallbackPolicy::New,
+    };
+    if c.outcome == RrdpOutcome::FailedExpired {
+        config.refresh = Duration::from_secs(1);
+        config.rrdp_fallback_time = Duration::from_secs(1);
+    } else {
+        config.refresh = Duration::from_secs(3600);
+        config.rrdp_fallback_time = Duration::from_secs(7200);
+    }
+    if prepare {
+        config.disable_rrdp = false;
+        config.disable_rsync = true;
+    } else {
+        config.disable_rrdp = !c.rrdp_on;
+        config.disable_rsync = !c.rsync_on;
+    }
+    config
+}
+
+fn prepare(case: &Case, srv: &HttpsServer) -> Cell {
+    let dir = tempfile::Builder::new().prefix("c29-").tempdir_in(scratch_base()).expect("tmp");
+    let mut server = RrdpServer::new(&rrdp_host(case), &case.base, 29);
+    server.publish(obj_uri(case).as_str(), Bytes::from_static(b"rrdp copy of the object"));
+    // rsync side
+    let moddir = dir.path().join("srv").join(rsync_host(case)).join(&case.module).join("ca");
+    std::fs::create_dir_all(&moddir).unwrap();
+    std::fs::write(moddir.join("obj.roa"), b"rsync copy of the object").unwrap();
+    let mut cell = Cell { case: case.clone(), dir, server, prepared_at: None, prep_error: None };
+    if matches!(case.outcome, RrdpOutcome::FailedCurrent | RrdpOutcome::FailedExpired) {
+        // an earlier successful update creates the local copy
+        cell.server.install(srv);
+        let config = config_for(case, cell.dir.path(), srv, true);
+        let ca = ta_ca_cert(2, &ca_repo(case), Some(&cell.server.notify_uri()));
+        let ok = (|| {
+            let mut collector = Collector::new(&config).map_err(|_| "collector")?;
+            collector.ignite().map_err(|_| "ignite")?;
+            let run = collector.start();
+            match run.repository(&ca) {
+                Ok(Some(r)) if r.is_rrdp() => Ok(()),
+                _ => Err("preparatory update did not succeed"),
+            }
+        })();
+        if let Err(e) = ok {
+            cell.prep_error = Some(e.to_string());
+        }
+        cell.prepared_at = Some(Instant::now());
+    }
+    cell
+}
+
+fn judge(cell: &Cell, srv: &HttpsServer, info: &mut CaseInfo) -> Verdict {
+    let c = &cell.case;
+    info.nt(true);
+    info.class(format!("policy:{:?}", c.policy));
+    info.class(format!("outcome:{:?}", c.outcome));
+    info.class(format!("expected:{:?}", expected(c)));
+    if let Some(e) = &cell.prep_error {
+        return Verdict::Dropped(format!("prepare:{}", e));
+    }
+    let host = rrdp_host(c);
+    // script the server for the run under test
+    match c.outcome {
+        RrdpOutcome::Updated => {
+            // for cells without a copy this is a snapshot update; otherwise there would be nothing to do
+            cell.server.install(srv);
+        }
+        _ => {
+            srv.clear_host(&host);
+            match c.failure % 4 {
+                0 => srv.set(&host, &cell.server.notify_path(), Resp::status(500)),
+                1 => srv.set(&host, &cell.server.notify_path(), Resp::status(404)),
+                2 => {
+                    let n = cell.server.notification_xml();
+                    let half = n.len() / 2;
+                    srv.set(&host, &cell.server.notify_path(), Resp::ok(n).drop_after(half));
+                }
+                _ => {
+                    // notification of a NEW session (so a snapshot is needed) whose snapshot is missing
+                    let mut s2 = RrdpServer::new(&host, &c.base, 2929);
+                    s2.new_session();
+                    s2.publish(obj_uri(c).as_str(), Bytes::from_static(b"never served"));
+                    srv.set(&host, &s2.notify_path(), Resp::ok(s2.notification_xml()));
+                    srv.set(&host, &s2.snapshot_path(), Resp::status(404));
+                }
+            }
+        }
+    }
+    // clock bracket
+    if let Some(t) = cell.prepared_at {
+        let age = t.elapsed();
+        match c.outcome {
+            RrdpOutcome::FailedExpired if age < Duration::from_millis(3000) => return Verdict::Dropped("expiry_wait_too_short".into()),
+            RrdpOutcome::FailedCurrent if age > Duration::from_secs(900) => return Verdict::Dropped("current_copy_too_old".into()),
+            _ => {}
+        }
+    }
+    let config = config_for(c, cell.dir.path(), srv, false);
+    // precondition check through routinator's own state record
+    if matches!(c.outcome, RrdpOutcome::FailedCurrent | RrdpOutcome::FailedExpired) {
+        match archive_state(&config, &cell.server.notify_uri()) {
+            Ok(Some(st)) => {
+                let expired = st.is_expired();
+                if expired != (c.outcome == RrdpOutcome::FailedExpired) {
+                    return Verdict::Dropped(format!("precondition_expired_is_{}", expired));
+                }
+            }
+            _ => return Verdict::Dropped("precondition_no_copy".into()),
+        }
+    }
+    let notify = cell.server.notify_uri();
+    let ca = ta_ca_cert(2, &ca_repo(c), if c.has_notify { Some(&notify) } else { None });
+    let mut collector = match Collector::new(&config) {
+        Ok(x) => x,
+        Err(_) => return Verdict::Dropped("collector_new_failed".into()),
+    };
+    if collector.ignite().is_err() {
+        return Verdict::Dropped("ignite_failed".into());
+    }
+    let https_before = srv.count(&host);
+    let _ = std::fs::remove_file(cell.dir.path().join("rsync.log"));
+    let run = collector.start();
+    let res = run.repository(&ca);
+    let got = match &res {
+        Ok(Some(r)) if r.is_rrdp() => Transport::Rrdp,
+        Ok(Some(_)) => Transport::Rsync,
+        Ok(None) => Transport::Nothing,
+        Err(_) => return Verdict::fail(format!("C29/run-failed/policy={:?}/outcome={:?}", c.policy, c.outcome), "Run::repository failed the run"),
+    };
+    let https_reqs = srv.count(&host) - https_before;
+    let rsync_calls = rsync_log(cell.dir.path());
+    let want = expected(c);
+    let cellname = format!("policy={:?}/outcome={:?}/rrdp={}/rsync={}/notify={}", c.policy, c.outcome, c.rrdp_on, c.rsync_on, c.has_notify);
+    let ctx_msg = format!("cell {} (failure mode {}, hosts {} / {}): expected {:?}, repository() gave {:?}; https requests {}, rsync invocations {:?}", cellname, c.failure % 4, host, rsync_host(c), want, got, https_reqs, rsync_calls);
+    if got != want {
+        return Verdict::fail(format!("C29/{}/expected={:?}/got={:?}", cellname, want, got), ctx_msg);
+    }
+    // transports really exercised
+    let module_line = format!("{}/{}", rsync_host(c), c.module);
+    let rsync_used = rsync_calls.iter().any(|l| *l == module_line);
+    if rsync_used != (want == Transport::Rsync) {
+        return Verdict::fail(format!("C29/{}/rsync-invoked={}", cellname, rsync_used), ctx_msg);
+    }
+    if (!c.rrdp_on || !c.has_notify) && https_reqs > 0 {
+        return Verdict::fail(format!("C29/{}/https-request-without-rrdp", cellname), ctx_msg);
+    }
+    if c.rrdp_on && c.has_notify && https_reqs == 0 {
+        return Verdict::fail(format!("C29/{}/no-rrdp-attempt", cellname), ctx_msg);
+    }
+    // the handed-out repository serves the transport's copy
+    if let Ok(Some(r)) = &res {
+        let obj = r.load_object(&obj_uri(c)).ok().flatten();
+        let want_bytes: &[u8] = if want == Transport::Rrdp { b"rrdp copy of the object" } else { b"rsync copy of the object" };
+        if obj.as_deref() != Some(want_bytes) {
+            return Verdict::fail(format!("C29/{}/object-from-wrong-transport", cellname), format!("{}; object read: {:?}", ctx_msg, obj.map(|b| String::from_utf8_lossy(&b).into_owned())));
+        }
+    }
+    Verdict::Pass
+}
+
+fn label(words: &mut impl Iterator<Item = String>) -> String {
+    words.next().unwrap_or_else(|| "x".into())
+}
+
+fn all_cases(ctx: &Ctx, variations: usize) -> Vec<Case> {
+    use proptest::prelude::*;
+    let n = 96 * variations * 4;
+    let strat = "[a-z][a-z0-9]{0,7}(-[a-z0-9]{1,4})?";
+    let mut words = sample_strategy(&strat.prop_map(|s: String| s), ctx.seed_for("names"), n).into_iter();
+    let mut res = Vec::new();
+    let mut k = 0u32;
+    for v in 0..variations as u32 {
+        for policy in [Policy::Never, Policy::Stale, Policy::New] {
+            for outcome in [RrdpOutcome::Updated, RrdpOutcome::FailedCurrent, RrdpOutcome::FailedExpired, RrdpOutcome::FailedNoCopy] {
+                for rrdp_on in [true, false] {
+                    for rsync_on in [true, false] {
+                        for has_notify in [true, false] {
+                            k += 1;
+                            res.push(Case {
+                                policy,
+                                outcome,
+                                rrdp_on,
+                                rsync_on,
+                                has_notify,
+                                // the counter keeps hosts distinct inside one run (one shared HTTPS server)
+                                rrdp_label: format!("{}{}", label(&mut words), k),
+                                rsync_label: format!("{}{}", label(&mut words), k),
+                                module: label(&mut words),
+                                base: label(&mut words),
+                                // spread the four failure modes over the cells that attempt RRDP (odd k within each block of 8)
+                                failure: ((k / 8 + k / 32 + (k % 8) / 2 + v) % 4) as u8,
+                            });
+                        }
+                    }
+                }
+            }
+        }
+    }
+    res
+}
+
+fn run_cells(ctx: &Ctx, rep: &mut Report, cases: &[Case]) {
+    let srv = HttpsServer::start();
+    let mut cells: Vec<Cell> = cases.iter().map(|c| prepare(c, &srv)).collect();
+    // the one wait that lets the refresh=1s copies expire (best-before is at most 2 s after the update)
+    if cells.iter().any(|c| c.case.outcome == RrdpOutcome::FailedExpired) {
+        let newest = cells.iter().filter(|c| c.case.outcome == RrdpOutcome::FailedExpired).filter_map(|c| c.prepared_at).max();
+        if let Some(t) = newest {
+            let need = Duration::from_millis(3500);
+            if t.elapsed() < need {
+                std::thread::sleep(need - t.elapsed());
+            }
+        }
+    }
+    for cell in cells.drain(..) {
+        let mut info = CaseInfo::default();
+        let v = judge(&cell, &srv, &mut info);
+        let tagged = Tagged { sub: "cells".to_string(), case: cell.case.clone() };
+        rep.record(ctx, &tagged, &info, &v);
+        if rep.violated() {
+            break;
+        }
+    }
+}
+
+pub fn run(ctx: &Ctx, rep: &mut Report, replay: Option<&serde_json::Value>) {
+    rep.rule("exhaustive product policy{never,stale,new} x RRDP outcome{updated, failed+current copy, failed+expired copy, failed+no copy} x rrdp{on,off} x rsync{on,off} x CA{with,without rpkiNotify} = 96 cells, each with generated host/module/path names and one of four failure modes (500, 404, connection drop on the notification; new-session notification whose snapshot is 404); copies made by a real earlier update, expiry by refresh=1s + rrdp-fallback-time=1s and one shared 3.5 s wait (precondition re-read from routinator's own state record); observed: Run::repository result (is_rrdp / rsync / None), fake-rsync invocation log, HTTPS request log, bytes of the object read through the handed-out repository; every cell is non-trivial; distinct by cell + names");
+    rep.assume("expected transport = table of the property statement and manual page (--rrdp-fallback); fake rsync transport (rvrsync) and in-harness HTTPS server are faithful");
+    if let Some(v) = replay {
+        let t: Tagged<Case> = serde_json::from_value(v.clone()).expect("replay");
+        run_cells(ctx, rep, std::slice::from_ref(&t.case));
+        return;
+    }
+    let cases = all_cases(ctx, ctx.tier.pick(1, 6));
+    run_cells(ctx, rep, &cases);
+    rep.exhaustive = Some(!rep.violated() && rep.dropped.is_empty());
 }
